@@ -17,6 +17,7 @@ func init() {
 			"R7 (= C01.R4) the handler Tree.Handler reports as found comes from a comma-ok lookup on a node that has handlers (never a nil handler handed to the call function); R8 (= C07.R3 d, e) a pooled context is released once and not touched afterwards (two requests sharing one context die with concurrent map writes). " +
 			"R17 an index that is compared with a length is compared with the length of the collection it indexes. " +
 			"R18 no store into a Context's parameter map is reachable with the map nil; R5 also: CheckSyntax and Tree.Add succeed only behind the parser. " +
+			"R19 (= C10.R17) a name that is only the ignore flag is refused. " +
 			"Not decided: absence of runtime faults for arbitrary bytes in general (no bounds prover in reach; the compiler's prove pass leaves about 100 bounds checks unproven).",
 		Assumptions: commonAssumptions,
 		Run: func(c *Ctx) {
@@ -42,6 +43,7 @@ func init() {
 			ruleIndexedFieldsKeepValidatedText(c, "R12")
 			ruleIndexBoundedByItsOwnLength(c, "R17")
 			ruleZeroContextIsUsable(c, "R18")
+			ruleStrippedNameIsNotEmpty(c, "R19")
 		},
 	})
 }
